@@ -108,6 +108,52 @@ def h_eigh_scales(ctx):
                    sum(np.outer(Qp[c][0][:, 0], Qp[d - c][0][:, 0]) for c in range(d + 1)), 'projector on eigenvector 0, order %d, D\'=%d' % (d, Dp))
 
 
+def h_shift(ctx, D, P, s):
+    """multiplication by t**s (s > 0) is causal: coefficient d of x.shift(s) computed with D
+    coefficients equals the one computed from the first D' coefficients, for every D' < D;
+    the same inside a small program (x + (x*x).shift(s))"""
+    algopy = symx.load_algopy()
+    from .common import mk_utpm, plain
+    X = np.empty((D, P, 2), dtype=object)
+    for idx in np.ndindex(*X.shape):
+        X[idx] = ctx.var('x%s' % list(idx))
+    prog = lambda x: x + (x * x).shift(s)
+    full, fullp = plain(mk_utpm(ctx, algopy, X).shift(s).data), plain(prog(mk_utpm(ctx, algopy, X)).data)
+    for Dp in range(1, D):
+        part, partp = plain(mk_utpm(ctx, algopy, X[:Dp]).shift(s).data), plain(prog(mk_utpm(ctx, algopy, X[:Dp])).data)
+        ctx.eq(part, full[:Dp], "shift(%d): first %d coefficients, D'=%d vs D=%d" % (s, Dp, Dp, D))
+        ctx.eq(partp, fullp[:Dp], "x + (x*x).shift(%d): first %d coefficients, D'=%d vs D=%d" % (s, Dp, Dp, D))
+
+
+def h_floordiv_mixed(ctx, D, where='entry'):
+    """x // y where one entry (or one direction) needs the 0/0 treatment and the other is regular:
+    the coefficients of the REGULAR entry / direction do not depend on the truncation degree and
+    equal those of x / y"""
+    algopy = symx.load_algopy()
+    from .common import mk_utpm, plain
+    shape = (D, 1, 2) if where == 'entry' else (D, 2)
+    X = np.empty(shape, dtype=object)
+    Y = np.empty(shape, dtype=object)
+    for idx in np.ndindex(*shape):
+        X[idx] = ctx.var('x%s' % list(idx))
+        Y[idx] = ctx.var('y%s' % list(idx))
+    zero = S.const(0) if ctx.mode == 'sym' else 0.0
+    sing = (0, 0) if where == 'entry' else (0,)
+    reg = (0, 1) if where == 'entry' else (1,)
+    X[(0,) + sing] = zero
+    Y[(0,) + sing] = zero
+    for idx in ((1,) + sing, (0,) + reg):
+        v = Y[idx]
+        ctx.assume(v > -1)
+        Y[idx] = v + 2           # leading coefficients well above the 1e-8 threshold
+    full = plain((mk_utpm(ctx, algopy, X) // mk_utpm(ctx, algopy, Y)).data)
+    quot = plain((mk_utpm(ctx, algopy, X[(slice(None),) + reg][:, None]) / mk_utpm(ctx, algopy, Y[(slice(None),) + reg][:, None])).data)
+    ctx.eq(full[(slice(None),) + reg], quot[:, 0], 'regular %s of x // y == x / y' % where)
+    for Dp in range(2, D):
+        part = plain((mk_utpm(ctx, algopy, X[:Dp]) // mk_utpm(ctx, algopy, Y[:Dp])).data)
+        ctx.eq(part[(slice(None),) + reg], full[(slice(Dp),) + reg], "regular %s of x // y: D'=%d vs D=%d" % (where, Dp, D))
+
+
 def h_tie(ctx, fname, D):
     """maximum / minimum with exactly tied zeroth coefficients: coefficients of order < D' do not
     depend on D (whatever rule selects the branch, it must not look at coefficients >= D')"""
@@ -182,6 +228,10 @@ def units(tier, seed):
     out.append(Unit('C12/out= reused workspace/qr 2x2/D3,P1', 'symx.props.c08', 'h_qr', {'M': 2, 'N': 2, 'D': 3, 'P': 1}, dict(W)))
     out.append(Unit('C12/out= reused workspace/cholesky 2x2/D3,P1', 'symx.props.c08', 'h_cholesky', {'n': 2, 'D': 3, 'P': 1}, dict(W)))
     out.append(Unit('C12/out= reused workspace/eigh 2x2/D3,P1', 'symx.props.c08', 'h_eigh', {'n': 2, 'D': 3, 'P': 1}, dict(W)))
+    for where in ('entry', 'direction'):
+        out.append(Unit('C12/floordiv, 0/0 in one %s only/D4' % where, 'symx.props.c12', 'h_floordiv_mixed', {'D': 4, 'where': where}, {'property': PROP}))
+    for sh in (1, 2, 3):
+        out.append(Unit('C12/shift(%d) (multiplication by a power of t)/D5,P2' % sh, 'symx.props.c12', 'h_shift', {'D': 5, 'P': 2, 's': sh}, {'property': PROP}))
     for fn in ('maximum', 'minimum'):
         out.append(Unit('C12/%s with tied zeroth coefficients/D4' % fn, 'symx.props.c12', 'h_tie', {'fname': fn, 'D': 4}, {'property': PROP, 'path_budget': 400}))
     out.append(Unit('C12/comparisons/D3,P1', 'symx.props.c12', 'h_compare', {'D': 3, 'P': 1}, {'property': PROP, 'path_budget': 2000, 'validate_paths': 3}))
